@@ -1,7 +1,9 @@
 package gv
 
 import (
+	"encoding/json"
 	"fmt"
+	"os"
 	"sort"
 )
 
@@ -50,4 +52,35 @@ func (c *Ctx) Quick() bool { return c.Tier != "thorough" }
 func ReplayFileCmd(path string) int {
 	fmt.Println("replay of", path, "is done through the owning check; see replay_cmd_template in MANIFEST.json")
 	return 0
+}
+
+// DebugReplay builds the natively compiled harness for a generated-parser grammar and runs a
+// replay file (used while developing harnesses).
+func DebugReplay(grammar, replay string) {
+	c := NewCtx("DBG", "quick", 0)
+	defer c.Cleanup()
+	var g *SynGrammar
+	for _, x := range append(append([]*SynGrammar{}, SynCorpus...), RecoveryCorpus...) {
+		if x.Name == grammar {
+			g = x
+		}
+	}
+	t, err := c.parserTarget(g.WithRecordingActions(), true, append(parserHarness, "genparser/c07.go")...)
+	if err != nil {
+		fmt.Println(err)
+		return
+	}
+	bin, err := c.replayBin(t)
+	if err != nil {
+		fmt.Println(err)
+		return
+	}
+	var rf ReplayFile
+	b, _ := os.ReadFile(replay)
+	json.Unmarshal(b, &rf)
+	nr, err := t.RunReplayBinary(bin, rf.Harness, replay)
+	fmt.Println(err)
+	if nr != nil {
+		fmt.Println(nr.Raw)
+	}
 }
